@@ -25,13 +25,18 @@ import (
 	"fmt"
 	"os"
 	"os/exec"
+	"path/filepath"
+	"reflect"
+	"runtime"
 	"sort"
 	"strconv"
 	"strings"
 	"sync"
 	"time"
 
+	"lunar/engine/actions"
 	lunar_messages "lunar/engine/messages"
+	"lunar/engine/streams"
 	stream_config "lunar/engine/streams/config"
 	lunar_context "lunar/engine/streams/lunar-context"
 	queue_processor "lunar/engine/streams/processors/queue"
@@ -39,6 +44,7 @@ import (
 	"lunar/engine/streams/resources"
 	quota_resource "lunar/engine/streams/resources/quota"
 	stream_types "lunar/engine/streams/types"
+	"lunar/engine/utils/environment"
 	"lunar/toolkit-core/clock"
 	context_manager "lunar/toolkit-core/context-manager"
 	"lunar/toolkit-core/verifhook"
@@ -271,6 +277,10 @@ type sim struct {
 	scanned bool // while held: the watcher had real time for a scan since the clock last moved
 	onGate  func()
 	l1      public_types.SharedQueueI
+	engine  bool // the processor is reached through the real streams.Stream built from YAML
+	stream  *streams.Stream
+	tmpdir  string
+	timers0 int // number of timers on the mock clock when the loop is parked
 	duo     bool // two processors A (0) and B (1) on one shared state and one quota
 	procs   [2]stream_types.ProcessorI
 	lcs     [2]*loopClock
@@ -307,8 +317,31 @@ func (s *sim) setup(w []string) string {
 	win, ok4 := kvI(w, "win")
 	t0, ok5 := kvI(w, "t0")
 	mode, ok6 := proto.KV(w, "mode")
-	if !(ok1 && ok2 && ok3 && ok4 && ok5 && ok6) || ttl <= 0 || win <= 0 || (mode != "mock" && mode != "real") {
+	if !(ok1 && ok2 && ok3 && ok4 && ok5 && ok6) || ttl <= 0 || win <= 0 || (mode != "mock" && mode != "real" && mode != "engine") {
 		return "bad-op"
+	}
+	// ancestors of the attached quota in the quota tree: parent first, root last
+	type lim struct{ max, win int64 }
+	var anc []lim
+	if a, ok := proto.KV(w, "anc"); ok {
+		for _, e := range strings.Split(a, ",") {
+			f := strings.Split(e, ":")
+			if len(f) != 2 {
+				return "bad-op"
+			}
+			m, e1 := strconv.ParseInt(f[0], 10, 64)
+			wn, e2 := strconv.ParseInt(f[1], 10, 64)
+			if e1 != nil || e2 != nil || wn <= 0 {
+				return "bad-op"
+			}
+			anc = append(anc, lim{m, wn})
+		}
+	}
+	if mode == "engine" {
+		if len(anc) > 0 {
+			return "bad-op"
+		}
+		return s.setupEngine(size, ttl, max, win, t0)
 	}
 	if mode == "real" && max != 0 {
 		return "bad-op"
@@ -341,16 +374,36 @@ func (s *sim) setup(w []string) string {
 	}
 	caseSeq++
 	quotaID := fmt.Sprintf("q%d", caseSeq)
-	strategy := &quota_resource.StrategyConfig{FixedWindow: &quota_resource.FixedWindowConfig{
-		QuotaLimit: quota_resource.QuotaLimit{Max: max, Interval: win, IntervalUnit: "second"}}}
+	// the quota tree: the attached quota (quotaID) is the deepest limit; its ancestors follow, the last
+	// one is the root quota (the only one with a filter); loaded by the real resource management
+	fw := func(m, wn int64) *quota_resource.StrategyConfig {
+		return &quota_resource.StrategyConfig{FixedWindow: &quota_resource.FixedWindowConfig{
+			QuotaLimit: quota_resource.QuotaLimit{Max: m, Interval: wn, IntervalUnit: "second"}}}
+	}
+	chain := append([]lim{{max, win}}, anc...)
+	names := make([]string, len(chain))
+	for k := range chain {
+		names[k] = quotaID
+		if k > 0 {
+			names[k] = fmt.Sprintf("%sp%d", quotaID, k)
+		}
+	}
+	last := len(chain) - 1
+	data := &quota_resource.QuotaResourceData{Quotas: []*quota_resource.QuotaConfig{{
+		ID: names[last], Filter: &stream_config.Filter{Name: names[last], URL: "api.example.com/*"},
+		Strategy: fw(chain[last].max, chain[last].win)}}}
+	for k := last - 1; k >= 0; k-- {
+		data.InternalLimits = append(data.InternalLimits, &quota_resource.ChildQuotaConfig{
+			QuotaConfig: quota_resource.QuotaConfig{ID: names[k], Strategy: fw(chain[k].max, chain[k].win)},
+			ParentID:    names[k+1]})
+	}
 	rm, err := resources.NewResourceManagement()
 	if err != nil {
 		return "err:resources"
 	}
-	rm, err = rm.WithQuotaData([]*quota_resource.QuotaResourceData{{Quotas: []*quota_resource.QuotaConfig{{
-		ID: quotaID, Filter: &stream_config.Filter{Name: quotaID, URL: "api.example.com/*"}, Strategy: strategy}}}})
+	rm, err = rm.WithQuotaData([]*quota_resource.QuotaResourceData{data})
 	if err != nil {
-		return "err:quota"
+		return "err:quota:" + proto.Enc(err.Error())
 	}
 	groups := map[string]any{}
 	for p := 0; p <= 20; p++ {
@@ -419,16 +472,38 @@ func (s *sim) setup2(w []string) string {
 	s.c.Gate(ptDone, true)
 	caseSeq++
 	quotaID := fmt.Sprintf("q%d", caseSeq)
-	strategy := &quota_resource.StrategyConfig{FixedWindow: &quota_resource.FixedWindowConfig{
-		QuotaLimit: quota_resource.QuotaLimit{Max: max, Interval: win, IntervalUnit: "second"}}}
+	// the quota tree: the attached quota (quotaID) is the deepest limit; its ancestors follow, the last
+	// one is the root quota (the only one with a filter); loaded by the real resource management
+	fw := func(m, wn int64) *quota_resource.StrategyConfig {
+		return &quota_resource.StrategyConfig{FixedWindow: &quota_resource.FixedWindowConfig{
+			QuotaLimit: quota_resource.QuotaLimit{Max: m, Interval: wn, IntervalUnit: "second"}}}
+	}
+	type lim struct{ max, win int64 }
+	var anc []lim
+	chain := append([]lim{{max, win}}, anc...)
+	names := make([]string, len(chain))
+	for k := range chain {
+		names[k] = quotaID
+		if k > 0 {
+			names[k] = fmt.Sprintf("%sp%d", quotaID, k)
+		}
+	}
+	last := len(chain) - 1
+	data := &quota_resource.QuotaResourceData{Quotas: []*quota_resource.QuotaConfig{{
+		ID: names[last], Filter: &stream_config.Filter{Name: names[last], URL: "api.example.com/*"},
+		Strategy: fw(chain[last].max, chain[last].win)}}}
+	for k := last - 1; k >= 0; k-- {
+		data.InternalLimits = append(data.InternalLimits, &quota_resource.ChildQuotaConfig{
+			QuotaConfig: quota_resource.QuotaConfig{ID: names[k], Strategy: fw(chain[k].max, chain[k].win)},
+			ParentID:    names[k+1]})
+	}
 	rm, err := resources.NewResourceManagement()
 	if err != nil {
 		return "err:resources"
 	}
-	rm, err = rm.WithQuotaData([]*quota_resource.QuotaResourceData{{Quotas: []*quota_resource.QuotaConfig{{
-		ID: quotaID, Filter: &stream_config.Filter{Name: quotaID, URL: "api.example.com/*"}, Strategy: strategy}}}})
+	rm, err = rm.WithQuotaData([]*quota_resource.QuotaResourceData{data})
 	if err != nil {
-		return "err:quota"
+		return "err:quota:" + proto.Enc(err.Error())
 	}
 	groups := map[string]any{}
 	for p := 0; p <= 20; p++ {
@@ -527,6 +602,261 @@ func (s *sim) tick2(w []string) string {
 		logs[pi] = joinOr(evs)
 	}
 	return "to=" + sortedIDs(to, bad) + " a=" + logs[0] + " b=" + logs[1]
+}
+
+// ---- mode=engine: the Queue processor of the registry inside a real streams.Stream built from YAML
+
+const engineFlowYAML = `name: QueueFlow
+filter:
+  url: api.example.com/*
+processors:
+  TheQueue:
+    processor: Queue
+    parameters:
+      - key: quota_id
+        value: %[1]s
+      - key: ttl_seconds
+        value: %[2]d
+      - key: queue_size
+        value: %[3]d
+      - key: priority_group_by_header
+        value: x-prio
+      - key: priority_groups
+        value:
+%[4]s
+  TooMany:
+    processor: GenerateResponse
+    parameters:
+      - key: status
+        value: 429
+      - key: body
+        value: Too many requests
+      - key: Content-Type
+        value: text/plain
+flow:
+  request:
+    - from:
+        stream:
+          name: globalStream
+          at: start
+      to:
+        processor:
+          name: TheQueue
+    - from:
+        processor:
+          name: TheQueue
+          condition: blocked
+      to:
+        processor:
+          name: TooMany
+    - from:
+        processor:
+          name: TheQueue
+          condition: allowed
+      to:
+        stream:
+          name: globalStream
+          at: end
+  response:
+    - from:
+        processor:
+          name: TooMany
+      to:
+        stream:
+          name: globalStream
+          at: end
+    - from:
+        stream:
+          name: globalStream
+          at: start
+      to:
+        stream:
+          name: globalStream
+          at: end
+`
+
+// timersLen reads the number of pending timers of the repo's MockClock (unexported field, read only):
+// the queue's loop is parked exactly when its `clock.After(100ms)` timer is pending again.
+func timersLen(m *clock.MockClock) int {
+	return reflect.ValueOf(m).Elem().FieldByName("timers").Len()
+}
+
+// waitersInQueue counts goroutines parked in (*Request).Wait, i.e. Execute calls waiting in a queue.
+func waitersInQueue() int {
+	buf := make([]byte, 1<<20)
+	n := runtime.Stack(buf, true)
+	return strings.Count(string(buf[:n]), "processors/queue.(*Request).Wait")
+}
+
+func (s *sim) setupEngine(size, ttl, max, win, t0 int64) string {
+	os.Setenv("LUNAR_SPOE_PROCESSING_TIMEOUT_SEC", "30")
+	dir, err := os.MkdirTemp("", "c06-engine-")
+	if err != nil {
+		return "err:tmp"
+	}
+	s.tmpdir = dir
+	for _, d := range []string{"quotas", "flows", "path_params"} {
+		if err := os.MkdirAll(filepath.Join(dir, d), 0o755); err != nil {
+			return "err:tmp"
+		}
+	}
+	// the quota's own filter does not match the traffic: only the Queue processor draws on it (a
+	// matching filter would add the quota's system flow, which counts every request on arrival)
+	quotas := fmt.Sprintf("quotas:\n  - id: EQ\n    filter:\n      url: quota-only.example.com/*\n    strategy:\n      fixed_window:\n        max: %d\n        interval: %d\n        interval_unit: second\n", max, win)
+	var groups strings.Builder
+	for p := 0; p <= 20; p++ {
+		fmt.Fprintf(&groups, "          g%d: %d\n", p, p)
+	}
+	flow := fmt.Sprintf(engineFlowYAML, "EQ", ttl, size, strings.TrimRight(groups.String(), "\n"))
+	if os.WriteFile(filepath.Join(dir, "quotas", "quotas.yaml"), []byte(quotas), 0o644) != nil ||
+		os.WriteFile(filepath.Join(dir, "flows", "flow.yaml"), []byte(flow), 0o644) != nil {
+		return "err:tmp"
+	}
+	os.Setenv("LUNAR_PROXY_QUOTAS_DIRECTORY", filepath.Join(dir, "quotas"))
+	os.Setenv("LUNAR_FLOWS_PATH_PARAM_DIR", filepath.Join(dir, "path_params"))
+	os.Setenv("LUNAR_FLOWS_PATH_PARAM_CONFIG", filepath.Join(dir, "path_params_generated.yaml"))
+	environment.SetStreamsFlowsDirectory(filepath.Join(dir, "flows"))
+	repo := os.Getenv("VERIF_REPO")
+	if repo == "" {
+		repo = "/repo"
+	}
+	environment.SetProcessorsDirectory(filepath.Join(repo, "proxy/src/services/lunar-engine/streams/processors/registry"))
+	s.engine = true
+	s.ttl = time.Duration(ttl) * time.Second
+	s.w = &world{enq: map[string]int{}, removed: map[string]bool{}}
+	ctx, cancel := context.WithCancel(context.Background())
+	s.cancel = cancel
+	cm := context_manager.Get()
+	cm.WithContext(ctx)
+	s.c = sched.New()
+	verifhook.Install(&ctl{s.c})
+	cm.SetMockClock()
+	s.mock = cm.GetMockClock()
+	s.now = time.UnixMilli(t0)
+	s.mock.Set(s.now)
+	s.c.Gate(ptDone, true)
+	st, err := streams.NewStream()
+	if err != nil {
+		return "err:stream:" + proto.Enc(err.Error())
+	}
+	if err := st.Initialize(); err != nil {
+		return "err:initialize:" + proto.Enc(err.Error())
+	}
+	s.stream = st
+	if !s.until(func() bool { return timersLen(s.mock) >= 1 }, 5*time.Second) {
+		return "stuck:loop-start"
+	}
+	s.timers0 = timersLen(s.mock)
+	s.ready = true
+	return "ok"
+}
+
+func (s *sim) spawnEngine(id int, prio string) *reqRec {
+	r := &reqRec{id: id, sid: fmt.Sprintf("r%d", id), done: make(chan struct{}), started: time.Now(), ttl: s.ttl,
+		arrival: s.now}
+	hdr := map[string]string{}
+	if prio != "none" {
+		hdr["x-prio"] = "g" + prio
+	}
+	api := stream_types.NewRequestAPIStream(lunar_messages.OnRequest{
+		ID: r.sid, SequenceID: r.sid, Method: "GET", Scheme: "https", URL: "api.example.com/x", Path: "/x",
+		Headers: hdr}, sharedBytes)
+	s.reqs = append(s.reqs, r)
+	go func() {
+		defer close(r.done)
+		defer func() {
+			if p := recover(); p != nil {
+				r.verdict = "panic:" + proto.Enc(fmt.Sprint(p))
+			}
+		}()
+		acts := &stream_config.StreamActions{Request: &stream_config.RequestStream{}, Response: &stream_config.ResponseStream{}}
+		err := s.stream.ExecuteFlow(api, acts)
+		r.lat = time.Since(r.started)
+		if err != nil {
+			r.verdict = "err"
+			return
+		}
+		r.verdict = "allowed"
+		for _, a := range acts.Request.Actions {
+			if _, ok := a.(*actions.EarlyResponseAction); ok {
+				r.verdict = "blocked"
+			}
+		}
+	}()
+	return r
+}
+
+// arriveEngine: one ExecuteFlow call through the Queue flow.  `queued` = the call is parked in the
+// processor's queue; `blocked` = it returned at once with the early response; `pending` = it is in
+// flight but has neither returned nor reached the queue within 1.5 s.
+func (s *sim) arriveEngine(w []string) string {
+	id, ok := kvI(w, "id")
+	prio, ok2 := s.parsePrio(w)
+	if !ok || !ok2 || int(id) != len(s.reqs) {
+		return "bad-op"
+	}
+	w0 := waitersInQueue()
+	r := s.spawnEngine(int(id), prio)
+	s.until(func() bool { return isDone(r) || waitersInQueue() > w0 }, 1500*time.Millisecond)
+	switch {
+	case isDone(r):
+		r.returned = true
+		if r.verdict == "blocked" {
+			return "blocked"
+		}
+		return "unexpected:" + r.verdict
+	case waitersInQueue() > w0:
+		r.waiting, r.inMap = true, true
+		return "queued"
+	default:
+		r.waiting = true
+		return "pending"
+	}
+}
+
+func (s *sim) tickEngine() string {
+	var adm, to []*reqRec
+	var bad []string
+	on := func(r *reqRec) {
+		switch r.verdict {
+		case "allowed":
+			adm = append(adm, r)
+		case "blocked":
+			to = append(to, r)
+		default:
+			bad = append(bad, fmt.Sprintf("!%s:%d", r.verdict, r.id))
+		}
+	}
+	// watcher first, as in the other modes: the clock stops 1 ns short of the loop's timer (whatever is
+	// past its TTL at the tick instant is past it there too: arrivals and expiry instants are tick instants);
+	// then the last nanosecond fires the loop's timer on the repo's MockClock
+	next := s.now.Add(100 * time.Millisecond)
+	s.mock.Set(next.Add(-time.Nanosecond))
+	expired := func() int {
+		n := 0
+		for _, r := range s.reqs {
+			if r.waiting && r.inMap && next.After(r.arrival.Add(r.ttl)) {
+				n++
+			}
+		}
+		return n
+	}
+	if expired() > 0 && !s.pump(func() bool { return expired() == 0 }, s.ttl+3*time.Second, on) {
+		bad = append(bad, "stuck")
+	}
+	s.now = next
+	s.mock.Set(s.now)
+	if !s.pump(func() bool { return timersLen(s.mock) >= s.timers0 }, 5*time.Second, on) {
+		bad = append(bad, "stuck")
+	}
+	ids := func(rs []*reqRec) string {
+		var out []string
+		for _, r := range rs {
+			out = append(out, strconv.Itoa(r.id))
+		}
+		return joinOr(out)
+	}
+	return "to=" + sortedIDs(to, bad) + " adm=" + ids(adm)
 }
 
 func (s *sim) until(cond func() bool, d time.Duration) bool {
@@ -695,7 +1025,7 @@ func (s *sim) pump(cond func() bool, d time.Duration, onVerdict func(r *reqRec))
 }
 
 func (s *sim) awaitRemovals() bool {
-	if s.hold {
+	if s.hold || s.engine {
 		return true
 	}
 	return s.until(func() bool {
@@ -1115,6 +1445,9 @@ func (s *sim) await(w []string) string {
 }
 
 func (s *sim) close() {
+	if s.tmpdir != "" {
+		os.RemoveAll(s.tmpdir)
+	}
 	if s.c != nil {
 		s.c.ReleaseAll()
 	}
@@ -1279,6 +1612,19 @@ func runCase(ops []string, emit func(string)) {
 				emit("bad-op")
 			} else {
 				emit(s.setup2(w))
+			}
+			continue
+		}
+		if s.engine {
+			switch {
+			case !s.ready:
+				emit("bad-op")
+			case w[0] == "arrive":
+				emit(s.arriveEngine(w))
+			case w[0] == "tick" && len(w) == 1:
+				emit(s.tickEngine())
+			default:
+				emit("bad-op")
 			}
 			continue
 		}
@@ -1477,6 +1823,8 @@ func execCase(c proto.Case, o *proto.Out) []string {
 			if a != "-" {
 				o.Count("l1-dequeue")
 			}
+		case a == "pending":
+			o.Count("engine-call-pending")
 		case a == "blocked":
 			refused++
 			o.Count("verdict-no-slot")
@@ -1496,6 +1844,10 @@ func execCase(c proto.Case, o *proto.Out) []string {
 				n := len(strings.Split(t, ","))
 				refused += n
 				o.Count("tick-with-timeouts")
+			}
+			if l, ok := proto.KV(aw, "adm"); ok && l != "-" {
+				allowed += len(strings.Split(l, ","))
+				o.Count("engine-tick-with-admissions")
 			}
 			for _, key := range []string{"a", "b"} {
 				if l, ok := proto.KV(aw, key); ok && l != "-" {
@@ -1911,6 +2263,63 @@ func genDuo(r *prng.R) []string {
 	return ops
 }
 
+// the attached quota is an internal limit deep in a quota tree (loaded by the real resource
+// management): a request is allowed only when the attached limit AND all its ancestors have room
+func genChain(r *prng.R) []string {
+	depth := r.Range(1, 3)
+	own := r.Range(1, 2)
+	var anc []string
+	m := own
+	for k := 0; k < depth; k++ {
+		switch r.Intn(4) {
+		case 0:
+			m = r.Range(1, 3) // an ancestor may be the tighter one
+		default:
+			m = m*3 + r.Range(0, 2)
+		}
+		anc = append(anc, fmt.Sprintf("%d:%d", m, r.Range(2, 3)))
+	}
+	ops := []string{fmt.Sprintf("cfg size=%d ttl=2 max=%d win=2 t0=%d mode=mock anc=%s",
+		r.Range(5, 8), own, baseMs+100*r.Intn(10), strings.Join(anc, ","))}
+	id := 0
+	for k := r.Range(4, 8); k > 0; k-- {
+		ops = append(ops, fmt.Sprintf("arrive id=%d prio=%s", id, genPrio(r, 2)))
+		id++
+	}
+	for t := r.Range(6, 26); t > 0; t-- {
+		if r.Chance(12) {
+			ops = append(ops, fmt.Sprintf("arrive id=%d prio=%s", id, genPrio(r, 2)))
+			id++
+		} else {
+			ops = append(ops, "tick")
+		}
+	}
+	return ops
+}
+
+// the Queue processor of the registry inside a real streams.Stream built from YAML (ExecuteFlow):
+// several calls in flight at once, mixed priorities, quota windows rolling over
+func genEngine(r *prng.R) []string {
+	ttl := 2
+	if r.Chance(30) {
+		ttl = 1
+	}
+	ops := []string{fmt.Sprintf("cfg size=10 ttl=%d max=%d win=%d t0=%d mode=engine", ttl, r.Range(1, 2), r.Range(1, 2), baseMs+100*r.Intn(10))}
+	id := 0
+	for n := r.Range(10, 26); n > 0; n-- {
+		if (id < 2 || r.Chance(25)) && id < 8 {
+			ops = append(ops, fmt.Sprintf("arrive id=%d prio=%s", id, strconv.Itoa(prng.Pick(r, []int{1, 3, 5, 5, 8}))))
+			id++
+		} else {
+			ops = append(ops, "tick")
+		}
+	}
+	for t := r.Range(4, 12); t > 0; t-- {
+		ops = append(ops, "tick")
+	}
+	return ops
+}
+
 // plain shutdown with waiters
 func genDrain(r *prng.R) []string {
 	ops := []string{genCfg(r, r.Range(1, 4), 2, r.Range(0, 1), 3)}
@@ -2012,9 +2421,9 @@ func malformed(r *prng.R) []string {
 }
 
 func gen(r *prng.R, f proto.Flags, emit func(proto.Case)) {
-	nShort, nLong, nOverlap, nHold, nDrain, nWall, nBad, nBound, nFifo, nHoldExp, nRepush, nHeap, nAttempt, nQueue, nPublish, nDuo := 26, 12, 6, 6, 5, 1, 4, 2, 6, 2, 6, 8, 3, 300, 10, 12
+	nShort, nLong, nOverlap, nHold, nDrain, nWall, nBad, nBound, nFifo, nHoldExp, nRepush, nHeap, nAttempt, nQueue, nPublish, nDuo, nChain, nEngine := 26, 12, 6, 6, 5, 1, 4, 2, 6, 2, 6, 8, 3, 300, 10, 12, 12, 8
 	if f.Tier == "thorough" {
-		nShort, nLong, nOverlap, nHold, nDrain, nWall, nBad, nBound, nFifo, nHoldExp, nRepush, nHeap, nAttempt, nQueue, nPublish, nDuo = 600, 200, 120, 120, 80, 6, 10, 20, 100, 25, 120, 40, 15, 3000, 150, 150
+		nShort, nLong, nOverlap, nHold, nDrain, nWall, nBad, nBound, nFifo, nHoldExp, nRepush, nHeap, nAttempt, nQueue, nPublish, nDuo, nChain, nEngine = 600, 200, 120, 120, 80, 6, 10, 20, 100, 25, 120, 40, 15, 3000, 150, 150, 150, 60
 	}
 	id := 0
 	add := func(prefix string, ops []string) {
@@ -2072,6 +2481,12 @@ func gen(r *prng.R, f proto.Flags, emit func(proto.Case)) {
 		}
 		for k := 0; k < nDuo; k++ {
 			add("t", genDuo(r.Fork()))
+		}
+		for k := 0; k < nChain; k++ {
+			add("c", genChain(r.Fork()))
+		}
+		for k := 0; k < nEngine; k++ {
+			add("e", genEngine(r.Fork()))
 		}
 		if b > 0 {
 			// widened search (budget > 1): only the classes that cost no real time are multiplied
